@@ -1010,6 +1010,8 @@ def fam_contract(rng, tier, i):
           # a builder first set up to create, then told to take the payload size from the file: it can only open
           "open m p=any! hdr=any caches=- cb=none ext=%d" % ((i // 2) % 2), "len", "close", "open zz p=any! hdr=any caches=- cb=none ext=0", "dump"]
     r = rng.random()
+    if i % 8 == 3:
+        r = 0.65                    # directed: a user header at the very top of what the length field admits
     if r < 0.3:
         # header just below / at / above the maximum the 16 bit length admits
         plen = len(str(p))
@@ -1024,6 +1026,8 @@ def fam_contract(rng, tier, i):
         # reopen and enforced like any other; one byte more is refused and leaves nothing
         top = 65535 - data_header_overhead(p)
         d = rng.choice([0, 0, 1, 2, 3, 4, 5])
+        if i % 8 == 3:
+            d = (i // 8) % 4
         big = bytes((rng.randrange(256) for _ in range(8))) * ((top - d) // 8) + bytes(rng.randrange(256) for _ in range((top - d) % 8))
         l2 = mk_lines(rng, p, 3, shape="jitter", base=rng.choice([7, 2**40]), no_marker=True)
         s += [new_line("h", p, big + b"\x00" * (d + 1)), "dump", new_line("h", p, big)] + push_lines(l2[:2]) + ["read_all u u", "close",
